@@ -52,6 +52,21 @@ CHECKS["C05"] = dict(
     design_ref="DESIGN.md section 5, C05",
 )
 
+CHECKS["C11"] = dict(
+    engine=E1,
+    technique="explicit-state BFS over histories of kernel/periodic reports, Query/Update/Remove/re-Create URR, PDR removal and re-pointing, two-report messages, Deletion and SEID re-use on two sessions; the simulated SMF collects UR-SEQN per URR incarnation across all three carrier messages",
+    text="Model checking of the implementation: on every transition each usage-report IE received by the simulated SMF must carry the next number 0,1,2,... of its URR incarnation (IE order inside a message), other sessions' counters untouched.",
+    note=E1_NOTE + " Well-formed histories only (no id created twice).",
+    design_ref="DESIGN.md section 5, C11",
+)
+CHECKS["C12"] = dict(
+    engine=E1,
+    technique="explicit-state BFS over all histories of Create/Update/Remove PDR with every URR list, Create/Remove/Query URR, two-IE messages and Deletion within one session, against a reference PDR->URR reference relation",
+    text="Model checking of the implementation: on every transition the multiset of (URR, TERMR, IMMER) usage reports in the response must equal what the reference derives from the PDR lists (final report exactly once when a URR is removed, the session deleted, or its last referring PDR removed or re-pointed), with the volumes the data plane handed out.",
+    note=E1_NOTE + " Update PDR always carries an explicit non-empty URR list; PDR lists name existing URRs.",
+    design_ref="DESIGN.md section 5, C12",
+)
+
 NOT_YET = "check not built yet (work in progress in this round; design in DESIGN.md section 5)"
 
 def main():
